@@ -83,6 +83,7 @@ type sim struct {
 	pkgs    []*pkgState
 	log     []string
 	verdict []common.Verdict
+	traces  map[int][]string // step index -> seam trace of the command executed there
 }
 
 func (s *sim) pkg(name string) *pkgState {
@@ -121,11 +122,13 @@ type Outcome struct {
 	Log      []string
 	Steps    int
 	Infra    string // non-empty: harness trouble (exit 2)
+	Traces   map[int][]string
+	AppDir   string
 }
 
 // RunCase executes one history. dir is a private scratch directory.
 func (e *Engine) RunCase(c *Case, dir string) *Outcome {
-	s := &sim{e: e, c: c, scratch: dir}
+	s := &sim{e: e, c: c, scratch: dir, traces: map[int][]string{}}
 	for _, p := range c.Pkgs {
 		s.pkgs = append(s.pkgs, &pkgState{name: p.Name, variant: p.Variant, n: p.N, outMode: map[string]string{}})
 	}
@@ -145,6 +148,8 @@ func (e *Engine) RunCase(c *Case, dir string) *Outcome {
 	}
 	out.Verdicts = s.verdict
 	out.Log = s.log
+	out.Traces = s.traces
+	out.AppDir = w.AppDir
 	return out
 }
 
@@ -572,6 +577,7 @@ func (s *sim) cmd(idx int, st Step) string {
 	}
 	stderr := s.w.Scrub(res.Stderr)
 	fired := res.FaultsFired()
+	s.traces[idx] = res.Trace
 	for _, f := range st.Faults {
 		e.Stats.FaultsConf.Add(f.Op+":"+f.Kind, 1)
 	}
@@ -804,7 +810,7 @@ func (s *sim) cmd(idx int, st Step) string {
 			}
 		case st.Cmd == "diff":
 			// ---------------- F4 status of diff (C17)
-			hdrBad := st.Header == "missing" || st.Header == "dir" || firedHas(fired, "read:eio") && st.Header == "good" && hdrFaulted(st)
+			hdrBad := st.Header == "missing" || st.Header == "dir" || firedHas(fired, "read:") && st.Header == "good" && hdrFaulted(st)
 			trouble := loadFails || len(badT) > 0 || st.NoGo || firedHas(fired, "getwd") || hdrBad
 			differs := false
 			for _, n := range okT {
